@@ -154,6 +154,7 @@ class C04:
         r = get_ex("asan" if single else "fast").run(s, cpu=30, wall=120)
         t = by_index(r.trace)
         keys, cc, fails = [], {}, []
+        crashed = False
         for tok, (ip, idd) in zip(toks, idx):
             exp = {"int": conv_int, "float": conv_float, "bool": conv_bool}[kind](tok)
             cl = "%s/%s" % (kind, exp[0])
@@ -164,6 +165,10 @@ class C04:
             sig, msg = self.judge(kind, route, en, tok, t, ip, idd)
             if sig is None:
                 continue
+            if sig == "no-result" and not single:
+                if crashed:
+                    continue
+                crashed = True
             if not single:
                 s1, idx1 = self.script(kind, route, en, [tok])
                 r1 = get_ex("asan").run(s1)
